@@ -165,7 +165,13 @@ def gen_case(rng, writes, kinds=('plain', 'window')):
             pos = o if wh == 0 else (max(0, pos + o) if wh == 1 else max(0, sz + o))
         else:
             k = rng.choice([0, 1, 2, 15, 16, 17, 31, 32, 33, 5])
-            ops.append(['w', pyenv.rbytes(rng, k).hex()])
+            if rng.random() < 0.15:
+                # the data handed over as a buffer of 2-, 4- or 8-byte items: the same bytes, measured in bytes
+                item = rng.choice([2, 2, 4, 8])
+                k = item * rng.choice([1, 3, 5, 9])
+                ops.append(['wv', pyenv.rbytes(rng, k).hex(), item])
+            else:
+                ops.append(['w', pyenv.rbytes(rng, k).hex()])
             pos += k
         if rng.random() < 0.1:
             ops.append(['t'])
@@ -179,7 +185,7 @@ def gen_case(rng, writes, kinds=('plain', 'window')):
             p = max(p, 0)
         elif o[0] == 'r':
             p += max(o[1], 0) if o[1] >= 0 else sz
-        elif o[0] == 'w':
+        elif o[0] in ('w', 'wv'):
             p += len(o[1]) // 2
         reach = max(reach, p + 64)
     margin = reach // 16 + 64
@@ -208,6 +214,8 @@ def run_impl(v, ops):
                 res.append('i:%x' % v.seek(op[1], op[2]))
             elif op[0] == 'w':
                 res.append('i:%x' % v.write(bytes.fromhex(op[1])))
+            elif op[0] == 'wv':
+                res.append('i:%x' % v.write(memoryview(bytes.fromhex(op[1])).cast({2: 'H', 4: 'I', 8: 'Q'}[op[2]])))
             else:
                 res.append('i:%x' % v.tell())
         except Exception as e:
